@@ -183,13 +183,13 @@ H("c06_if_branch", "c06_ifexpr::c06_if_branch", ["C06"],
   assumptions=["elseif chains are folded by the same step (fold over branches in process_expression, which clones nodes and is not executed)",
                "native replay runs the real convert_if_branch with the real evaluator on realised operands"])
 
-H("c06_if_branch_light", "c06_ifexpr::c06_if_branch_light", ["C06"],
-  ["remove_if_expression::Processor::convert_if_branch", "remove_if_expression::Processor::wrap_in_table", "Evaluator::can_return_multiple_values", "LuaValue::is_truthy"],
-  "one if/else branch; condition and else operands leaves, result operand over all shapes: a single-valued leaf (value nil/false/true/any f64/string/table/function, known or Unknown), a call, `...`, or `not x` / `-x` / `#x` over an unknown leaf",
-  mode="lean", timeout_s=1200, mem_gb=16, replay="if_branch_light", stubs=[EVAL_STUB],
-  assumptions=["elseif chains are folded by the same step (fold over branches in process_expression, which clones nodes and is not executed)",
-               "native replay runs the real convert_if_branch with the real evaluator on realised operands"])
-
+for shape, text in [("leaf", "a single-valued leaf (value nil/false/true/any f64/string/table/function, known or Unknown)"), ("call", "a call"),
+                    ("varargs", "`...`"), ("not", "`not x`"), ("minus", "`-x`"), ("length", "`#x`")]:
+    H("c06_if_branch_result_" + shape, "c06_ifexpr::c06_if_branch_result_" + shape, ["C06"],
+      ["remove_if_expression::Processor::convert_if_branch", "remove_if_expression::Processor::wrap_in_table", "Evaluator::can_return_multiple_values", "LuaValue::is_truthy"],
+      "one if/else branch whose result operand is " + text + "; condition and else operands are leaves with symbolic values",
+      mode="lean", timeout_s=900, mem_gb=16, replay="if_branch_result_" + shape, stubs=[EVAL_STUB],
+      assumptions=["native replay runs the real convert_if_branch with the real evaluator on realised operands"])
 # c06_if_chain_* (the whole process_expression fold over two elseif branches, interpreted) are written
 # in harness/src/c06_ifexpr.rs but not registered: the slice-iterator loop of `fold` is unrolled to the
 # unwind bound with convert_if_branch inlined in each copy (out of memory at 16 GB, unwind 7).
